@@ -244,7 +244,14 @@ class Builtins:
             yield (x.cls, st)
         elif isinstance(x, Ref):
             if x.cls is None:
-                raise Unsupported("class of untyped ref")
+                kinds = E.options.get("kinds")
+                if not kinds or "kind" not in st.zh:
+                    raise Unsupported("class of untyped ref")
+                kd = st.zh["kind"][x.t]
+                for code, cls in kinds.items():
+                    if E.feasible(st, kd == code):
+                        yield (cls, st.assume(kd == code))
+                return
             yield (x.cls, st)
         elif isinstance(x, Exc):
             yield (x.cls, st)
@@ -472,6 +479,19 @@ class Builtins:
             if not is_sym(root):
                 raise Unsupported("group of a concrete subject")
             yield ("val", VStr(root, lambda R, base=base, l=lifts[gi]: base(l(R)), "group%d" % gi), st); return
+        if isinstance(recv, LRef) and name == "remove":
+            # list.remove(x): the FIRST element identical/equal to x is removed; ValueError when there is none (identity == equality for heap ids)
+            zh = dict(st.zh)
+            n = zh["L_n"][recv.id]; el = zh["L_e"][recv.id]
+            x = E.unwrap_ref(pos[0])
+            k = z3.Int("k!rm")
+            absent = z3.ForAll([k], z3.Implies(z3.And(0 <= k, k < n), el[k] != x))
+            yield ("raise", Exc(ValueError), st.assume(absent))
+            p = fresh("p!rm", I)
+            first = z3.And(0 <= p, p < n, el[p] == x, z3.ForAll([k], z3.Implies(z3.And(0 <= k, k < p), el[k] != x)))
+            zh["L_e"] = z3.Store(zh["L_e"], recv.id, z3.Lambda([k], z3.If(k < p, el[k], el[k + 1])))
+            zh["L_n"] = z3.Store(zh["L_n"], recv.id, n - 1)
+            yield ("val", None, st.assume(first).with_zh(zh)); return
         if isinstance(recv, LRef) and name in ("pop", "append", "insert"):
             zh = dict(st.zh)
             n = zh["L_n"][recv.id]; el = zh["L_e"][recv.id]
